@@ -121,9 +121,9 @@ def run(prop, tier, seed, work):
     msizes = [0, 1, 2, 9] if quick else [0, 1, 2, 8, 9, 14, 28, 110]
     tops = [s for s in sorted(um.keys()) if not s.startswith(("Leaf_", "Fix_"))]   # private leaves: nested use only
     batches.append(Batch("containers", um, cases_for(prop, um, tops, tier, rng, msizes, strlens[:3])))
-    nrand = 1 if quick else 4
+    nrand = 1 if quick else 10
     for i in range(nrand):
         ur = U.rand_universe(rng, nstructs=10 if quick else 16)
-        batches.append(Batch("random%d" % i, ur, random_cases(prop, ur, tier, rng, 150 if quick else 1500)))
+        batches.append(Batch("random%d" % i, ur, random_cases(prop, ur, tier, rng, 150 if quick else 1200)))
     suite.run_batches(res, work, batches)
     return suite.finish(res, RULES[prop], ASSUME)
